@@ -304,7 +304,8 @@ pub struct LaneOutcome {
 
 struct Session {
     linked_seq: u64,
-    implicit: bool,
+    /// a completed sync of this session was requested while the remote had linked first
+    synced_after_link: bool,
     synced_valid: bool,
     got_clear: bool,
     replica: BTreeMap<MKey, i64>,
@@ -346,6 +347,30 @@ fn index(events: &[(u64, LaneEv)]) -> Index {
     ix
 }
 
+/// "having linked first, or linking implicitly by syncing": the j-th sync request of the remote for `lane` is a sync
+/// *without* link if, going backwards through the remote's own requests for that lane, no link request is found before
+/// an unlink request or the beginning (requests of one remote are processed in the order they were queued).
+pub fn sync_without_link(rem: &RemoteObs, lane: &str, j: usize) -> bool {
+    let reqs: Vec<&Req> = rem.sent.iter().filter(|s| s.0 == lane).map(|s| &s.1).collect();
+    let mut n = 0usize;
+    for (i, r) in reqs.iter().enumerate() {
+        if **r == Req::Sync {
+            if n == j {
+                for back in reqs[..i].iter().rev() {
+                    match back {
+                        Req::Link => return false,
+                        Req::Unlink => return true,
+                        _ => {}
+                    }
+                }
+                return true;
+            }
+            n += 1;
+        }
+    }
+    true
+}
+
 fn between(list: Option<&Vec<usize>>, lo: usize, hi: usize) -> bool {
     // any position strictly inside (lo, hi)
     list.map(|l| l.iter().any(|p| *p > lo && *p < hi)).unwrap_or(false)
@@ -381,7 +406,6 @@ pub fn check_map_lane(
             .collect()
     };
     let sync_q = queued(Req::Sync);
-    let link_q = queued(Req::Link);
     let unlink_q = queued(Req::Unlink);
     let mut synced_count = 0usize;
     let mut prev_unlinked = 0u64;
@@ -394,7 +418,7 @@ pub fn check_map_lane(
                     out.sessions += 1;
                     sess = Some(Session {
                         linked_seq: f.seq,
-                        implicit: !link_q.iter().any(|q| *q > prev_unlinked && *q < f.seq),
+                        synced_after_link: false,
                         synced_valid: false,
                         got_clear: false,
                         replica: BTreeMap::new(),
@@ -417,6 +441,9 @@ pub fn check_map_lane(
                     // lost to it).
                     if !unlink_q.iter().any(|u| *u > *q && *u < f.seq) {
                         s.synced_valid = true;
+                        if !sync_without_link(rem, lane, j) {
+                            s.synced_after_link = true;
+                        }
                     }
                 }
             }
@@ -570,7 +597,7 @@ pub fn check_map_lane(
                 })
                 .collect();
             if !diff.is_empty() {
-                let class = if s.synced_valid && s.implicit {
+                let class = if s.synced_valid && !s.synced_after_link {
                     "not-converged:synced-without-link"
                 } else if s.synced_valid {
                     "not-converged:linked-and-synced"
@@ -580,8 +607,8 @@ pub fn check_map_lane(
                 v.fail(
                     class,
                     format!(
-                        "remote {} lane {}: link session (linked read at seq {}, implicit={}, sync completed={}) is open at quiescence but the replica differs from the lane's map on (key, replica, lane): {:?}; replica {:?}; lane {:?}; lane history {:?}",
-                        ri, lane, s.linked_seq, s.implicit, s.synced_valid, diff, s.replica, final_map, events
+                        "remote {} lane {}: link session (linked read at seq {}, sync completed={}, requested after linking={}) is open at quiescence but the replica differs from the lane's map on (key, replica, lane): {:?}; replica {:?}; lane {:?}; lane history {:?}",
+                        ri, lane, s.linked_seq, s.synced_valid, s.synced_after_link, diff, s.replica, final_map, events
                     ),
                 );
             }
@@ -598,7 +625,11 @@ pub struct SyncOutcome {
     pub syncs_completed: usize,
     /// completed syncs with at least one lane mutation stamped inside [t0, t1]
     pub syncs_racing: usize,
-    pub implicit_links: usize,
+    pub without_link: usize,
+    pub after_link: usize,
+    pub events_before_synced: bool,
+    /// [t0, t1] of every completed sync
+    pub windows: Vec<(u64, u64)>,
     pub max_concurrent_keys: usize,
 }
 
@@ -652,12 +683,6 @@ pub fn check_map_sync(
         .filter(|(l, r, _, _)| l == lane && *r == Req::Sync)
         .map(|s| (s.2, s.3))
         .collect();
-    let link_q: Vec<u64> = rem
-        .sent
-        .iter()
-        .filter(|(l, r, _, _)| l == lane && *r == Req::Link)
-        .map(|s| s.2)
-        .collect();
     let mut universe: BTreeSet<MKey> = BTreeSet::new();
     for (_, e) in events {
         if let LaneEv::Upd(k, _) | LaneEv::Rem(k) = e {
@@ -665,7 +690,7 @@ pub fn check_map_sync(
         }
     }
     let mut linked = false;
-    let mut implicit = false;
+    let mut events_in_session = 0usize;
     let mut replica: BTreeMap<MKey, i64> = BTreeMap::new();
     let mut j = 0usize;
     for f in rem.frames.iter().filter(|f| f.lane == lane) {
@@ -674,15 +699,13 @@ pub fn check_map_sync(
                 if !linked {
                     linked = true;
                     replica.clear();
-                    implicit = !link_q.iter().any(|q| *q < f.seq);
-                    if implicit {
-                        out.implicit_links += 1;
-                    }
+                    events_in_session = 0;
                 }
             }
             FrameKind::Unlinked(_) => linked = false,
             FrameKind::Event(body) => {
                 if linked {
+                    events_in_session += 1;
                     if let Ok(ev) = parse_event(li, body) {
                         if let LaneEv::Upd(k, _) | LaneEv::Rem(k) = &ev {
                             universe.insert(k.clone());
@@ -717,7 +740,17 @@ pub fn check_map_sync(
                 if events.iter().any(|(q, _)| *q > t0 && *q < t1) {
                     out.syncs_racing += 1;
                 }
-                let suffix = if implicit { "/sync-without-link" } else { "/linked-first" };
+                let without = sync_without_link(rem, lane, j - 1);
+                if without {
+                    out.without_link += 1;
+                } else {
+                    out.after_link += 1;
+                }
+                out.windows.push((t0, t1));
+                if events_in_session > 0 {
+                    out.events_before_synced = true;
+                }
+                let suffix = if without { "/sync-without-link" } else { "/linked-first" };
                 let mut present = 0;
                 for k in universe.iter() {
                     let states = window_states(events, k, t0, t1);
